@@ -440,3 +440,48 @@ Definition run_v2v_dt (dt : idtype) (g h : geom) (round check : bool) (pts : lis
            (v2v_dt dt (geom_aff g) (geom_aff h) (g_shape h) round check pts);
       vres (fun l => VL (map vvec l))
            (ref2idx (geom_aff h) (g_shape h) round check (idx2ref (geom_aff g) pts))].
+
+(* ---- index arrays of REDUCED floating point precision (float16 / float32) ------------------------------------
+   np.ndarray.astype(float16 / float32) of a float64 value: round to nearest, ties to even, to the binary format
+   with fbits significant bits.  The exponent range is not modelled (float16: overflow above 65504, subnormals
+   below 2^-14 - the harness does not draw such images); float64 itself stays exact (oracle premise).
+   The code (VolumeToVolumeTransformer.__call__) applies this cast ONLY in the un-rounded branch:
+       if round_output:  np.around(out_float64).astype(int type)      <- the precision of the input never enters
+       else:             out_float64.astype(indices.dtype)  if indices.dtype.kind == 'f'
+   and runs the bounds check on the values it returns.  v2v_fp is v2v_dt with the cast modelled faithfully. *)
+Definition pow2 (e : Z) : Q := (2 # 1) ^ e.
+(* floor(log2 |q|) for q <> 0:  log2 num - log2 den  is that value or one more *)
+Definition qlog2 (q : Q) : Z :=
+  let l := Z.log2 (Z.abs (Qnum q)) - Z.log2 (Zpos (Qden q)) in
+  if Qle_bool (pow2 l) (Qabs' q) then l else l - 1.
+(* nearest number  m * 2^e  with |m| < 2^p  (p significant bits), ties to even *)
+Definition fl_round (p : Z) (q : Q) : Q :=
+  if Qeq_bool q 0 then 0 else
+  let e := qlog2 q - (p - 1) in inject_Z (rne (q / pow2 e)) * pow2 e.
+(* significant bits incl. the hidden one: IEEE binary16 / binary32 / binary64 (W8: no such numpy type; e4m3-like) *)
+Definition fbits (w : width) : Z := match w with W8 => 4 | W16 => 11 | W32 => 24 | W64 => 53 end.
+Definition fl_cast (w : width) (q : Q) : Q := match w with W64 => q | _ => fl_round (fbits w) q end.
+Definition to_float_fp (w : width) (v : vec3) : vec3 := V3 (fl_cast w (vx v)) (fl_cast w (vy v)) (fl_cast w (vz v)).
+Definition cast_out_fp (dt : idtype) (round : bool) (v : vec3) : vec3 :=
+  if round then vmapz (fun q => wrap_s (round_width dt) (rne q)) v
+  else match dt with DFloat w => to_float_fp w v | _ => v end.
+Definition v2v_fp (dt : idtype) (A B : aff) (shapeB : t3 Z) (round check : bool) (pts : list vec3)
+  : res (list vec3) :=
+  if Qeq_bool (det B) 0 then Err VE else
+  let T := v2v_aff A B in
+  let out := map (cast_out_fp dt round) (map (phys T) pts) in
+  if check then
+    match bounds_fail shapeB out with
+    | None => Err VE
+    | Some true => Err VE
+    | Some false => Ok out
+    end
+  else Ok out.
+(* the regression class this guards against, as a function: cast to the input precision FIRST, then round *)
+Definition cast_then_round (w : width) (q : Q) : Z := rne (fl_cast w q).
+(* same boundary as run_v2v_dt, the float cast modelled *)
+Definition run_v2v_fp (dt : idtype) (g h : geom) (round check : bool) (pts : list vec3) : val :=
+  VL [vres (fun l => VL [VL (map vvec l); VZ (dt_code (out_dtype dt round))])
+           (v2v_fp dt (geom_aff g) (geom_aff h) (g_shape h) round check pts);
+      vres (fun l => VL (map vvec l))
+           (ref2idx (geom_aff h) (g_shape h) round check (idx2ref (geom_aff g) pts))].
